@@ -38,7 +38,7 @@ theorem index_consistent (F : Fmt) (chunk minChunk workers : Nat) (ents : List T
   have hpos' := wtf_pos F _ (combineGo ws 0).2.2 (combineGo ws 0).2.1 (tocTar (combineGo ws 0).2.1) a [] hpos
   refine ⟨hpos', ?_⟩
   rw [wtf_toc, ← hflat]
-  exact (AllGood.mono (by simpa using hag) (wtf_ext ..) (fun _ h => h)).indexOK hpos'
+  exact (AllGood.mono (by simpa using hag) (wtf_ext _ _ _ _ _ _ _) (fun _ h => h)).indexOK hpos'
 
 /-- The TOC of a built blob is, entry by entry (in the order given, TOC-named entries dropped),
 the group of that entry; the chunks of a file are together, ordered, contiguous and cover
@@ -150,8 +150,8 @@ theorem writerIndexConsistentFull_false : ¬ WriterIndexConsistentFull := by
   intro hfull
   have key := hfull ⟨4, 1000, [], false⟩ .gzip witnessCalls (fun _ => []) [5] [] 0 _ (by decide) rfl
   obtain ⟨e, _, _, _, _, hs, _⟩ := key ⟨"b", .reg, 1, 5, 3, 0, 0⟩ (by decide) (by decide)
-  revert hs
-  decide
+  rw [show specRead _ _ e.data.length = none from rfl] at hs
+  exact absurd hs (by simp)
 
 /-- Writer runs: the TOC is the sequence of entry groups, chunks tile each file - any number of
 calls, any `MinChunkSize`. -/
@@ -178,11 +178,6 @@ theorem diffid_is_hash_of_stream (P : Params) (F : Fmt) (calls : List (List TarE
   obtain ⟨ms, _, _, hb, _, _, _⟩ := writerRun_spec hc False (fun h => h.elim) h
   rw [hb, wtf_stream, wtf_hashed]
 
-/-- The source bytes of a list of lossless calls: every entry's raw bytes and data, then the tail. -/
-def inputBytes : List (List TarEnt × Bytes) → Bytes
-  | [] => []
-  | c :: cs => c.1.flatMap entBytes ++ c.2 ++ inputBytes cs
-
 /-- Lossless mode: whenever the run succeeds, the decompressed layer is the input, byte for byte
 (followed by the TOC entry for gzip; `Unpack` cuts it off at the TOC offset). -/
 theorem lossless_roundtrip (P : Params) (F : Fmt) (calls : List (List TarEnt × Bytes))
@@ -190,19 +185,7 @@ theorem lossless_roundtrip (P : Params) (F : Fmt) (calls : List (List TarEnt × 
     (hl : P.lossless = true) (h : writerRun P F calls tocTar orcF orcC a = some b) :
     streamOf b.members = inputBytes calls ++ tocAddition F (tocTar b.toc) := by
   obtain ⟨ms, _, hst, hb, hlos, _, _⟩ := writerRun_spec hc False (fun h => h.elim) h
-  rw [hb, wtf_stream, hst, wtf_toc]
-  congr 1
-  have hlos := hlos hl
-  clear hb hst h
-  induction calls with
-  | nil => rfl
-  | cons c cs ih =>
-    have h1 : keep c.1 = c.1 := by
-      simp only [keep, List.filter_eq_self]
-      intro e he
-      simp [hlos e (by simp [callEnts, he])]
-    have h2 := ih (fun e he => hlos e (by simp [callEnts, he]))
-    simp [callStream, inputBytes, tarStream, h1, lossTail, hl, h2]
+  rw [hb, wtf_stream, hst, wtf_toc, callStream_lossless P hl calls (hlos hl)]
 
 /-! ## The verified checker (translation validation of each real blob) -/
 
@@ -228,7 +211,7 @@ example : (build .gzip 2 0 2 exEnts (fun _ => [42]) [] [3, 1] 6).isSome = true :
 
 example : ((build .gzip 2 0 2 exEnts (fun _ => [42]) [] [3, 1] 6).map
     (fun b => b.toc.map (fun x => (x.offset, x.chunkOffset, x.chunkSize)))) =
-    some [(0, 0, 0), (4, 0, 2), (6, 2, 2), (7, 4, 0), (8, 0, 0)] := by decide
+    some [(0, 0, 0), (4, 0, 2), (6, 2, 2), (7, 4, 0), (9, 0, 0)] := by decide
 
 example : ((build .gzip 2 0 2 exEnts (fun _ => [42]) [] [3, 1] 6).map
     (fun b => checkIndex b.toc b.members
